@@ -55,79 +55,78 @@ TInit == /\ l = 2 /\ am = [t \in TT |-> Unarmed]
 
 Rec == Tr[l]
 Ev(e) == l <= Len(Tr) /\ Rec.e = e
-Flag(cond, kind, what) == bad' = IF bad = <<"", "">> /\ ~cond THEN <<kind, what>> ELSE bad
+NoBad == <<"", "">>
+\* checks: a sequence of <<holds, "LAW" | "DRIFT", text>>; the first one that does not hold is remembered
+Judge(checks) ==
+    bad' = IF bad # NoBad THEN bad
+           ELSE LET F == {i \in 1..Len(checks) : ~checks[i][1]}
+                IN IF F = {} THEN NoBad ELSE <<checks[MinOf(F)][2], checks[MinOf(F)][3]>>
 Val(x) == IF x < 0 THEN INF ELSE x           \* -1 in the trace = INT64_MAX / UINT64_MAX
 
 TArm == /\ Ev("arm")
         /\ am' = [am EXCEPT ![Rec.t] = [armed |-> TRUE, clk |-> Rec.c, tgt |-> Val(Rec.tgt), iv |-> Val(Rec.iv), x |-> Rec.x]]
-        /\ Flag(Val(Rec.tgt) < INF, "DRIFT arm with target >= INT64_MAX")
+        /\ Judge(<< <<Val(Rec.tgt) < INF, "DRIFT", "arm with target >= INT64_MAX">> >>)
         /\ UNCHANGED <<kt, ken, tnow, lastrun>>
 TDisarm == /\ Ev("disarm")
            /\ am' = [am EXCEPT ![Rec.t] = Unarmed]
-           /\ Flag(am[Rec.t].armed /\ am[Rec.t].clk = Rec.c, "DRIFT disarm of a timer that is not in that heap")
+           /\ Judge(<< <<am[Rec.t].armed /\ am[Rec.t].clk = Rec.c, "DRIFT", "disarm of a timer that is not in that heap">> >>)
            /\ UNCHANGED <<kt, ken, tnow, lastrun>>
 \* _dispatch_timers_run looks at dth_min[DTH_TARGET_ID]
 TRun == /\ Ev("run")
         /\ lastrun' = [t |-> Rec.t, tgt |-> Val(Rec.tgt), now |-> Rec.now]
         /\ tnow' = [tnow EXCEPT ![Rec.c] = Rec.now]
-        /\ bad' = IF bad # "" THEN bad
-                  ELSE IF ~(am[Rec.t].armed /\ am[Rec.t].clk = Rec.c /\ am[Rec.t].tgt = Val(Rec.tgt))
-                    THEN "DRIFT run examines a timer whose recorded arming differs"
-                  ELSE IF Rec.t \notin MinTimers(am, Rec.c) THEN "LAW RunTakesMinimum: dth_min is not a timer with the smallest target"
-                  ELSE IF Rec.now < tnow[Rec.c] THEN "LAW TimeMonotone"
-                  ELSE ""
+        /\ Judge(<< <<am[Rec.t].armed /\ am[Rec.t].clk = Rec.c /\ am[Rec.t].tgt = Val(Rec.tgt),
+                      "DRIFT", "run examines a timer whose recorded arming differs">>,
+                    <<Rec.t \in MinTimers(am, Rec.c), "LAW", "RunTakesMinimum: dth_min[TARGET] is not a timer with the smallest target">>,
+                    <<Rec.now >= tnow[Rec.c], "LAW", "TimeMonotone: the manager used a `now` smaller than before">> >>)
         /\ UNCHANGED <<am, kt, ken>>
-\* the fire branch: compute_missed, (re)arm or disarm follow as their own records
+\* the fire branch of _dispatch_timers_run: compute_missed; (re)arm or disarm follow as their own records
 TFire == /\ Ev("fire")
          /\ LET r == am[Rec.t]
                 cm == ComputeMissed(r, lastrun.now, 0)
-            IN bad' = IF bad # "" THEN bad
-                      ELSE IF lastrun.t # Rec.t THEN "DRIFT fire without the run record of that timer"
-                      ELSE IF ~(r.tgt <= lastrun.now) THEN "LAW FireOnlyWhenDue: fired with target > now"
-                      ELSE IF Rec.kind = "after" THEN (IF Rec.cnt = 1 THEN "" ELSE "LAW ComputeMissed: dispatch_after pending data # 2")
-                      ELSE IF r.x = 1 THEN ""                                   \* not a whole-microsecond timer
-                      ELSE IF Rec.cnt # cm[2] THEN "LAW ComputeMissed: pending count"
-                      ELSE IF Val(Rec.ntgt) # cm[1].tgt THEN "LAW ComputeMissed: new target"
-                      ELSE ""
+                src == Rec.kind = "source" /\ r.x = 0
+            IN Judge(<< <<lastrun.t = Rec.t /\ r.armed, "DRIFT", "fire without the run record of that timer">>,
+                        <<r.tgt <= lastrun.now, "LAW", "FireOnlyWhenDue: fired with target > now">>,
+                        <<Rec.kind # "after" \/ Rec.cnt = 1, "LAW", "ComputeMissed: dispatch_after pending data is not 2">>,
+                        <<~src \/ Rec.cnt = cm[2], "LAW", "ComputeMissed: pending count is not (now - target) / interval + 1">>,
+                        <<~src \/ Val(Rec.ntgt) = cm[1].tgt, "LAW", "ComputeMissed: new target is not target + missed * interval">> >>)
          /\ UNCHANGED <<am, kt, ken, tnow, lastrun>>
-\* _dispatch_timers_program decided: cls 0 = due now (delay 0), 1 = arm, 2 = nothing to wait for
+\* _dispatch_timers_program decided: cls 0 = due now (delay 0), 1 = arm the kernel timer, 2 = nothing to wait for
 TProg == /\ Ev("prog")
-         /\ LET mt == MinTarget(am, Rec.c) IN
-            bad' = IF bad # "" THEN bad
-                   ELSE IF Rec.cls = 2 /\ mt < INF THEN "LAW ProgramsMinimum: heap not empty but no delay computed"
-                   ELSE IF Rec.cls # 2 /\ mt >= INF THEN "LAW ProgramsMinimum: heap empty but a delay computed"
-                   ELSE IF Rec.cls = 0 /\ ~(mt <= Rec.now) THEN "LAW ProgramsMinimum: delay 0 although the minimum target is in the future"
-                   ELSE IF Rec.cls = 1 /\ ~(mt > Rec.now \/ (mt = Rec.now /\ \E t \in MinTimers(am, Rec.c) : am[t].x = 1))
-                     THEN "LAW ProgramsMinimum: minimum target is due but a positive delay was computed"
-                   ELSE IF Rec.now < tnow[Rec.c] THEN "LAW TimeMonotone"
-                   ELSE ""
+         /\ LET mt == MinTarget(am, Rec.c)
+                fuzzy == \E t \in MinTimers(am, Rec.c) : am[t].x = 1
+            IN Judge(<< <<Rec.cls # 2 \/ mt >= INF, "LAW", "ProgramsMinimum: heap not empty but no delay computed">>,
+                        <<Rec.cls = 2 \/ mt < INF, "LAW", "ProgramsMinimum: heap empty but a delay computed">>,
+                        <<Rec.cls # 0 \/ mt <= Rec.now, "LAW", "ProgramsMinimum: delay 0 although the minimum target is in the future">>,
+                        <<Rec.cls # 1 \/ mt > Rec.now \/ (fuzzy /\ mt = Rec.now), "LAW", "ProgramsMinimum: minimum target is due but a positive delay was computed">>,
+                        <<Rec.cls = 2 \/ Rec.now >= tnow[Rec.c], "LAW", "TimeMonotone: the manager used a `now` smaller than before">> >>)
          /\ tnow' = [tnow EXCEPT ![Rec.c] = IF Rec.cls = 2 THEN @ ELSE Rec.now]
          /\ UNCHANGED <<am, kt, ken, lastrun>>
 \* _dispatch_timeout_program(tidx, target): timerfd_settime(ABSTIME target) + epoll ADD/MOD, or EPOLL_CTL_DEL
 TKprog == /\ Ev("kprog")
           /\ kt' = [kt EXCEPT ![Rec.c] = IF Val(Rec.tgt) < INF THEN Val(Rec.tgt) ELSE @]
           /\ ken' = [ken EXCEPT ![Rec.c] = Val(Rec.tgt) < INF]
-          /\ Flag(Val(Rec.tgt) >= INF \/ Val(Rec.tgt) = MinTarget(am, Rec.c),
-                  "LAW ProgramsMinimum: kernel timer programmed with a time that is not the minimum target")
+          /\ Judge(<< <<Val(Rec.tgt) >= INF \/ Val(Rec.tgt) = MinTarget(am, Rec.c),
+                        "LAW", "ProgramsMinimum: kernel timer programmed with a time that is not the minimum target">> >>)
           /\ UNCHANGED <<am, tnow, lastrun>>
 TKevent == /\ Ev("kevent")
            /\ ken' = [ken EXCEPT ![Rec.c] = FALSE]
-           /\ Flag(ken[Rec.c], "DRIFT timerfd event although the kernel timer was not enabled")
+           /\ Judge(<< <<ken[Rec.c], "DRIFT", "timerfd event although the kernel timer was not enabled">> >>)
            /\ UNCHANGED <<am, kt, tnow, lastrun>>
 \* the manager blocks in epoll_wait: the safety core of "always fires"
 TWait == /\ Ev("wait")
-         /\ Flag(\A c \in CC : Heap(am, c) # {} => ken[c] /\ kt[c] <= MinTarget(am, c),
-                 "LAW ArmedImpliesProgrammed: the manager blocks with a non-empty heap whose kernel timer is not programmed at or before the minimum target")
+         /\ Judge(<< <<\A c \in CC : Heap(am, c) # {} => ken[c] /\ kt[c] <= MinTarget(am, c), "LAW",
+                       "ArmedImpliesProgrammed: the manager blocks with a non-empty heap whose kernel timer is not programmed at or before the minimum target">> >>)
          /\ UNCHANGED <<am, kt, ken, tnow, lastrun>>
 
 TNext == /\ l' = l + 1
          /\ (TArm \/ TDisarm \/ TRun \/ TFire \/ TProg \/ TKprog \/ TKevent \/ TWait)
 TSpec == TInit /\ [][TNext]_tvars
 
-NoLawBroken == ~(\E i \in 1..4 : SubSeq(bad \o "    ", 1, 4) = "LAW ")
-NoDrift == ~(\E i \in 1..6 : SubSeq(bad \o "      ", 1, 6) = "DRIFT ")
+NoLawBroken == bad[1] # "LAW"
+NoDrift == bad[1] # "DRIFT"
 MaxL == IF TLCGet(1) < l THEN TLCSet(1, l) ELSE TRUE
 Accepted == l > Len(Tr)
 StopWhenAccepted == Accepted => (PrintT("TRACE_ACCEPTED") /\ TLCSet("exit", TRUE))
-Post == PrintT(<<"MAXL", TLCGet(1), Len(Tr)>>) /\ PrintT(<<"BAD", bad>>)
+Post == PrintT(<<"MAXL", TLCGet(1), Len(Tr)>>)
 =============================================================================
